@@ -3,7 +3,7 @@
 #include "common.h"
 using namespace vh;
 
-struct Defn { Real m[3], len, k, q0s, g, q[8], u[8]; };
+struct Defn { Real m[3], len, k, q0s, g, q[8], u[8], hx, hy, hz; };
 
 static Integrator* makeInteg(const std::string& n, const System& sys) {
     if (n == "ExplicitEuler") return new ExplicitEulerIntegrator(sys);
@@ -44,6 +44,17 @@ static void simulate(const Defn& d, const std::string& iname, int variant, const
         out(prefix + "t" + std::to_string(k), r.getTime());
     }
     out(prefix + "energy", sys.calcEnergy(integ->getState()));
+    {   // a geometry query that belongs to this "simulation": a smooth height map evaluated at symbolic points
+        Vector gx(4), gy(4); Matrix gf(4, 4);
+        for (int i = 0; i < 4; ++i) { gx[i] = i - 1.5; gy[i] = 0.5 * i - 0.75; for (int j = 0; j < 4; ++j) gf(i, j) = 0.25 * i * i - 0.125 * i * j + 0.0625 * j; }
+        BicubicSurface surf(gx, gy, gf, 0);
+        ContactGeometry::SmoothHeightMap hm(surf);
+        for (int k = 0; k < 2; ++k) {
+            Vec3 p(d.hx + 0.125 * k, d.hy, d.hz);
+            out(prefix + "hmap_val" + std::to_string(k), hm.calcSurfaceValue(p));
+            outV3(prefix + "hmap_grad" + std::to_string(k), hm.calcSurfaceGradient(p));
+        }
+    }
     symfp::note((prefix + "steps").c_str(), std::to_string(integ->getNumStepsTaken()));
     symfp::note((prefix + "attempts").c_str(), std::to_string(integ->getNumStepsAttempted()));
     delete integ;
@@ -69,6 +80,12 @@ static void unrelatedWork(int variant) {
         volatile double sink = e.findNearestPoint(Vec3(2, 1, 0.5), inside, n)[0];
         ContactGeometry::Sphere sp(1.5); sink = sink + sp.findNearestPoint(Vec3(0.3, 0.2, 0.1), inside, n)[1];
         ContactGeometry::Torus to(2, 0.5); sink = sink + to.findNearestPoint(Vec3(1, 1, 0.2), inside, n)[2];
+        // another, different height map evaluated in the same patch region as the simulation's own one
+        Vector gx(4), gy(4); Matrix gf(4, 4);
+        for (int i = 0; i < 4; ++i) { gx[i] = i - 1.5; gy[i] = 0.5 * i - 0.75; for (int j = 0; j < 4; ++j) gf(i, j) = 1.0 - 0.5 * i + 0.75 * j * j; }
+        BicubicSurface surf2(gx, gy, gf, 0);
+        ContactGeometry::SmoothHeightMap hm2(surf2);
+        sink = sink + hm2.calcSurfaceValue(Vec3(-0.3, -0.2, 0.1)) + hm2.calcSurfaceGradient(Vec3(-0.3, -0.2, 0.1))[0];
         (void)sink;
     }
     // random numbers and an optimizer-free numeric kernel
@@ -93,6 +110,7 @@ int main(int argc, char** argv) {
         static const Real q1[8] = {0.375, 0.25, -0.5, 0.125, 0.25, 0, 0, 0};
         for (int i = 0; i < 8; ++i) d.q[i] = in(S("q", i), variant == 0 ? q0[i] : q1[i], "lin");
         for (int i = 0; i < 8; ++i) d.u[i] = in(S("u", i), 0.5 - 0.25 * (i % 4), "lin");
+        d.hx = in("hx", -0.375, "lin"); d.hy = in("hy", -0.25, "lin"); d.hz = in("hz", 0.5, "lin");
         size_t dec0 = symfp::num_decisions();
         simulate(d, iname, variant, "r1_");
         size_t dec1 = symfp::num_decisions();
